@@ -140,3 +140,25 @@ Theorem C10_async_seq_mutex : forall m evs,
   (forall c c', body_open s c -> body_open s c' -> c = c').
 Proof. exact async_seq_mutex. Qed.
 Print Assumptions C10_async_seq_mutex.
+
+(* ---- the tie to the source by translation: coq/gen/GenSched.v is regenerated from
+   src/eascheduler/schedulers/async_scheduler.py on every run (tools/gen_sched.py); these theorems are re-checked
+   against it.  For every fuel and every state: whenever the model of Sched.v returns a state that is not marked
+   broken (always, from well-formed states: core_specs_all), the generated set_timer / run_jobs / its loop / add_job /
+   remove_job return exactly that state, and job.execute() hands its exception to run_jobs. *)
+From EAS Require GenRt GenSchedEq.
+Theorem C10_generated_source_recognised : EASGen.GenSched.gen_sched_status_v = EASGen.GenSched.GenSchedOk.
+Proof. exact GenSchedEq.gen_sched_recognised. Qed.
+Print Assumptions C10_generated_source_recognised.
+Theorem C10_generated_scheduler_is_model : forall E f, GenSchedEq.agrees E f.
+Proof. exact GenSchedEq.gen_agrees. Qed.
+Print Assumptions C10_generated_scheduler_is_model.
+Theorem C10_generated_wake_is_model : forall E fuel hs s s' w,
+  SchedApi.Inv s -> Sched.timer s = Some w -> (w <= Sched.now s)%Z -> Sched.step_op E fuel hs s Sched.OWake = (s', Sched.Done) ->
+  GenSchedEq.gen_run_jobs E fuel s = Some (s', GenRt.Ret).
+Proof. exact GenSchedEq.gen_wake_is_model. Qed.
+Print Assumptions C10_generated_wake_is_model.
+Theorem C10_generated_enable_is_model : forall E fuel hs s b s',
+  SchedApi.Inv s -> Sched.step_op E fuel hs s (Sched.OEnable b) = (s', Sched.Done) -> GenSchedEq.gen_set_enabled E fuel b s = Some (s', GenRt.Ret).
+Proof. exact GenSchedEq.gen_enable_is_model. Qed.
+Print Assumptions C10_generated_enable_is_model.
